@@ -121,7 +121,8 @@ def run(name, pids):
             env = dict(os.environ, VERIF_REPO=wt, VERIF_NO_EVIDENCE='1')
             r = sh('cd %s && ./check %s --tier quick' % (VERIF, pid), env=env, timeout=7200)
             lines = [l for l in r.stdout.splitlines() if l.startswith('VIOLATION') or ' x {' in l]
-            out[pid] = {'exit': r.returncode, 'first': lines[:3]}
+            sig = [l.strip() for l in lines if ' x {' in l]
+            out[pid] = {'exit': r.returncode, 'first': (sig or lines)[:3]}
             print(name, pid, 'exit', r.returncode, lines[:2])
     finally:
         drop(wt)
